@@ -30,7 +30,7 @@ impl Check for C02 {
         let profile = match rng.below(4) {
             0 => Profile { keys: 2, text: false, marks: false, blocks: false, ..Profile::contention() },
             1 => Profile { counters: true, keys: 2, ..Profile::contention() },
-            _ => Profile::contention(),
+            _ => Profile { text_elem_ops: rng.clone().chance(50), ..Profile::contention() },
         };
         let mut w = World::new(rng, n, enc, profile);
         w.verbose = cx.verbose;
